@@ -537,3 +537,288 @@ def rejudge(pid, cases, d, rl, m):
         if vlib.outcome_class(x) in ('PANIC', 'ABORT', 'TIMEOUT', 'BUDGET'):
             return True
     return False
+
+# ============================================================================ metamorphic properties
+import re as _re
+from decimal import Decimal as _D
+
+def run_pairs(pid, pairs, stats, profiles=('debug', 'release'), what='pair'):
+    """pairs: list of (caseA, caseB, note); both must have the same outcome (bit for bit) on the implementation;
+       every case is also compared with the model"""
+    allc = []
+    for a, b, _ in pairs:
+        allc.append(a); allc.append(b)
+    cases, outs, model = run_streams(allc, stats, profiles=profiles)
+    res = std_judge(pid, cases, outs, model)
+    idx = {c: i for i, c in enumerate(cases)}
+    n = 0
+    for prof in profiles:
+        impl = outs[prof]
+        for a, b, note in pairs:
+            x, y = vlib.strip_ticks(impl[idx[a]]), vlib.strip_ticks(impl[idx[b]])
+            n += 1
+            if x != y:
+                res['violations'].insert(0, {'kind': 'metamorphic', 'cases': [list(a), list(b)], 'profile': prof,
+                                             'observed': x + ' | ' + y,
+                                             'why': '%s: %r gives %s but %r gives %s (%s build)' % (note, dec_expr(a[3]), x, dec_expr(b[3]), y, prof)})
+    res['levels'][what + '/impl-vs-impl'] = (n, sum(1 for v in res['violations'] if v['kind'] == 'metamorphic'))
+    return res
+
+CTX = ['%s', '2+%s', '2*%s', '6/%s', '2^%s', '-%s', '%s+1', '%s*2', '(%s)', '3-%s-1', '+%s', '1+2*%s*3', '2^%s*3', '-%s-1']
+def ctxs(ev):
+    c = list(CTX)
+    if gen.FV[ev]:
+        c += ['max(%s,1)', 'min(1,%s)']
+    if ev != 'complex':
+        c += ['abs(%s)', 'mod(7,%s)' if ev != 'complex' else 'abs(%s)']
+    else:
+        c += ['abs(%s)', 'pow(%s,2)']
+    return c
+
+def juxt_parts(rng, ev, n):
+    g = ExprGen(rng, ev, lits=gen.SMALL_LITS[ev], allow_ans=False, allow_juxt=False)   # A and R end in their own closing token
+    out = []
+    for _ in range(n):
+        k = rng.below(5)
+        lits = [l for l in gen.SMALL_LITS[ev] if not l.endswith('i')] or ['2']
+        if k == 0:
+            A = rng.choice(lits)
+        elif k == 1:
+            A = '(' + g.expr(1) + ')'
+        elif k == 2 and gen.HAS_FLOORBR[ev]:
+            A = rng.choice(['⌊%s⌋', '⌈%s⌉']) % g.expr(1)
+        elif k == 3 and gen.HAS_BANG[ev]:
+            A = rng.choice(lits[:4]) + '!'
+        else:
+            A = g.call(1)
+        # right factor: a trigger-starting primary with ^ / superscript / ! suffixes
+        kk = rng.below(4)
+        if kk == 0:
+            R = '(' + g.expr(1) + ')'
+        elif kk == 1 and gen.HAS_FLOORBR[ev]:
+            R = rng.choice(['⌊%s⌋', '⌈%s⌉']) % g.expr(1)
+        elif kk == 2 and k != 0:
+            R = rng.choice(lits)
+        else:
+            R = g.call(1)
+        sfx = rng.below(6)
+        if sfx == 0:
+            R += '^' + rng.choice(lits[:4])
+        elif sfx == 1:
+            R += '²'
+        elif sfx == 2 and gen.HAS_BANG[ev]:
+            R += '!'
+        elif sfx == 3:
+            R += '^-' + rng.choice(lits[1:4])
+        out.append((A, R))
+    return out
+
+def run_C12(tier, rng, stats):
+    pairs = []
+    n = 60 if tier == 'quick' else 600
+    for ev in EVS:
+        for A, R in juxt_parts(rng, ev, n):
+            for c in ctxs(ev):
+                a = case(ev, 'eval', None, c % (A + R))
+                b = case(ev, 'eval', None, c % ('(' + A + '*(' + R + '))'))
+                pairs.append((a, b, 'implicit product vs (A*(R))'))
+        # forbidden juxtapositions must be rejected (compared with the model; listed here for the histogram)
+    rej = []
+    for ev in EVS:
+        for left in ['@', 'pi', 'e', '2²', '2°', '2rad', 'π']:
+            for right in ['(3)', '2', 'abs(3)', '⌊3⌋', '@', 'pi']:
+                rej.append(case(ev, 'eval', None, left + right))
+                rej.append(case(ev, 'eval', None, '1+' + left + right + '*2'))
+                if left in ('@', 'pi', 'e', 'π'):
+                    rej.append(case(ev, 'eval', None, '(2)' + left))
+    stats['rule'] = ('implicit products A R (A: literal / group / floor-ceil brackets / call / factorial; R: group, brackets, call or literal with ^, superscript, ! suffixes) '
+                     'in %d syntactic contexts per evaluator, each rendered implicitly and as (A*(R)); plus forbidden juxtapositions with constants, @, superscripts, ° and rad' % len(ctxs('f64')))
+    res = run_pairs('C12', pairs, stats, profiles=('debug',))
+    cases, outs, model = run_streams(rej + s_tokseq(tier, rng, mode='ast', qlen=4, tlen=5), stats, profiles=('debug',))
+    merge(res, std_judge('C12', cases, outs, model))
+    rejset = set(rej)
+    for c, x in zip(cases, outs['debug']):
+        if c in rejset and vlib.outcome_class(x) == 'OK':
+            res['violations'].insert(0, {'kind': 'forbidden-juxtaposition-accepted', 'cases': [list(c)], 'observed': x,
+                                         'why': 'a constant / @ / superscript / degree took part in an implicit product'})
+    return res
+
+WS = [0x9, 0xA, 0xB, 0xC, 0xD, 0x20, 0x85, 0xA0, 0x1680] + list(range(0x2000, 0x200B)) + [0x2028, 0x2029, 0x202F, 0x205F, 0x3000]
+ALIASES = [('sgn', 'sign'), ('sgn', 'signum'), ('sign', 'signum'), ('med', 'median'), ('trunc', 'truncate'), ('w', 'lambert_w'),
+           ('asinh', 'arsinh'), ('acosh', 'arcosh'), ('atanh', 'artanh')]
+
+def alias_swap(rng, s):
+    cands = []
+    for a, b in ALIASES:
+        for x, y in ((a, b), (b, a)):
+            for m in _re.finditer(r'(?<![a-z_0-9])' + x + r'\(', s):
+                cands.append((m.start(), len(x), y))
+    for m in _re.finditer(r'(?<![a-z_])pi(?![a-z])', s):
+        cands.append((m.start(), 2, 'π'))
+    for m in _re.finditer('π', s):
+        cands.append((m.start(), 1, 'pi'))
+    if not cands:
+        return None
+    i, l, y = rng.choice(cands)
+    return s[:i] + y + s[i + l:]
+
+def run_C13(tier, rng, stats):
+    pairs = []
+    n = 150 if tier == 'quick' else 1500
+    for ev in EVS:
+        g = ExprGen(rng, ev)
+        gs = ExprGen(rng, ev, lits=gen.SMALL_LITS[ev], allow_sup=False)
+        for i in range(n):
+            e = g.expr(1 + rng.below(3))
+            if rng.chance(1, 4):
+                e = gen.mutate(rng, e)           # malformed inputs too
+            ph = rng.choice(gen.ph_pool(ev))
+            # white space anywhere (even inside names and numbers)
+            w = e
+            for _ in range(1 + rng.below(4)):
+                j = rng.below(len(w) + 1)
+                w = w[:j] + chr(rng.choice(WS)) + w[j:]
+            pairs.append((case(ev, 'eval', ph, e), case(ev, 'eval', ph, w), 'white space'))
+            a = alias_swap(rng, e)
+            if a is not None:
+                pairs.append((case(ev, 'eval', ph, e), case(ev, 'eval', ph, a), 'alias'))
+            # redundant brackets / prefix + around the whole (well-formed) expression
+            e2 = gs.expr(2)
+            pairs.append((case(ev, 'eval', ph, e2), case(ev, 'eval', ph, '(' + e2 + ')'), 'redundant brackets'))
+            x, y = gs.expr(1), gs.expr(1)
+            for c in ctxs(ev)[:8]:
+                if gen.HAS_FLOORBR[ev]:
+                    pairs.append((case(ev, 'eval', ph, c % ('floor(' + x + ')')), case(ev, 'eval', ph, c % ('⌊' + x + '⌋')), 'floor brackets'))
+                    pairs.append((case(ev, 'eval', ph, c % ('ceil(' + x + ')')), case(ev, 'eval', ph, c % ('⌈' + x + '⌉')), 'ceil brackets'))
+                if 'mod' in gen.F2[ev]:
+                    pairs.append((case(ev, 'eval', ph, c % ('mod(' + x + ',' + y + ')')), case(ev, 'eval', ph, c % ('((' + x + ')%(' + y + '))')), 'mod'))
+                pairs.append((case(ev, 'eval', ph, c % ('pow(' + x + ',' + y + ')')), case(ev, 'eval', ph, c % ('((' + x + ')^(' + y + '))')), 'pow'))
+                pairs.append((case(ev, 'eval', ph, c % ('(' + x + ')')), case(ev, 'eval', ph, c % ('(+(' + x + '))')), 'prefix +'))
+            # superscript run vs ^N, followed by a binary operator, closing bracket, comma or the end
+            P = rng.choice([rng.choice(gen.SMALL_LITS[ev][:6]), '(' + x + ')', 'abs(' + x + ')'])
+            N = str(rng.below(4)) + (str(rng.below(10)) if rng.chance(1, 3) else '')
+            sup = ''.join(gen.SUP[int(ch)] for ch in N)
+            for tail_l, tail_r in [('', ''), ('', '+1'), ('', '*3'), ('(', ')'), ('2-', '/2'), ('abs(', ')'), ('pow(', ',2)')] + ([('', '°')] if gen.POSTFIX5[ev] else []):
+                pairs.append((case(ev, 'eval', ph, tail_l + P + sup + tail_r), case(ev, 'eval', ph, tail_l + P + '^' + N + tail_r), 'superscript'))
+    # every white-space character, every position of a fixed expression
+    for ev in EVS:
+        base = {'f64': 'sin(1.5)+2', 'i64': 'gcd(12,18)+2', 'decimal': 'abs(1.5)+2', 'complex': 'sin(1.5)+2i', 'number': 'sin(1.5)+2'}[ev]
+        for wch in WS:
+            for j in range(len(base) + 1):
+                pairs.append((case(ev, 'eval', None, base), case(ev, 'eval', None, base[:j] + chr(wch) + base[j:]), 'white space'))
+        for zw in [0x200B, 0x180E, 0xFEFF, 0x2060]:     # look-alikes that are NOT White_Space: must be rejected, not stripped
+            pairs.append((case(ev, 'eval', None, 'q'), case(ev, 'eval', None, '1' + chr(zw) + '+1'), 'non-white-space look-alike is an error'))
+    stats['rule'] = ('metamorphic pairs: 1-4 random White_Space characters inserted anywhere (and every one of the 25 characters at every position of a fixed expression), '
+                     'alias swaps, floor/ceil brackets, mod/pow as operators, superscript run vs ^N in the stated follow contexts, prefix +, redundant brackets; well-formed and mutated inputs')
+    return run_pairs('C13', pairs, stats, profiles=('debug',))
+
+def lit_of_ph(ev, ph):
+    """a bracketed literal expression that evaluates exactly to the placeholder, or None"""
+    if ev == 'i64':
+        z = int(ph)
+        if z == -2**63:
+            return None
+        return '(%d)' % z if z >= 0 else '(-%d)' % -z
+    if ev == 'f64':
+        x = w2f(ph)
+        if x != x or x in (float('inf'), float('-inf')):
+            return None
+        s = format(_D(abs(x)), 'f')
+        return '(' + s + ')' if not (x < 0 or (x == 0 and str(x).startswith('-'))) else '(-' + s + ')'
+    if ev == 'number':
+        if ph[0] == 'I':
+            z = int(ph[1:])
+            if z == -2**63:
+                return None
+            return '(%d)' % z if z >= 0 else '(-%d)' % -z
+        x = w2f(ph[1:])
+        if x != x or x in (float('inf'), float('-inf')):
+            return None
+        s = format(_D(abs(x)), 'f')
+        if '.' not in s:
+            s += '.0'
+        return '(' + s + ')' if not (x < 0 or (x == 0 and str(x).startswith('-'))) else '(-' + s + ')'
+    if ev == 'decimal':
+        neg = ph.startswith('-')
+        c, sc = ph.lstrip('-').split('/')
+        sc = int(sc)
+        c = c.rjust(sc + 1, '0')
+        s = c[:len(c) - sc] + ('.' + c[len(c) - sc:] if sc else '')
+        if neg and int(c) == 0:
+            return None
+        return '(' + s + ')' if not neg else '(-' + s + ')'
+    return None
+
+def run_C14(tier, rng, stats):
+    pairs = []
+    n = 400 if tier == 'quick' else 4000
+    for ev in ['f64', 'i64', 'decimal', 'number']:
+        g = ExprGen(rng, ev, lits=gen.SMALL_LITS[ev] + ['@', '@', '@'])
+        pool = gen.ph_pool(ev)
+        for i in range(n):
+            e = g.expr(1 + rng.below(3))
+            if '@' not in e:
+                e = '@+' + e
+            ph = rng.choice(pool)
+            lit = lit_of_ph(ev, ph)
+            if lit is None:
+                pairs.append((case(ev, 'eval', ph, e), case(ev, 'eval', ph, e), 'self'))
+                continue
+            pairs.append((case(ev, 'eval', ph, e), case(ev, 'eval', None, e.replace('@', lit)), '@ vs the literal of the placeholder'))
+    # the placeholder comes back unchanged
+    cs = []
+    for ev in EVS:
+        for ph in gen.ph_pool(ev):
+            cs.append(case(ev, 'eval', ph, '@'))
+            cs.append(case(ev, 'eval', ph, '(@)'))
+            cs.append(case(ev, 'eval', ph, '+@'))
+    stats['rule'] = ('expressions with 1..n occurrences of @ x the placeholder pool of each type (non-finite, -0.0, extreme integers, scaled decimals), compared with the same expression '
+                     'where @ is replaced by a bracketed literal of the same value; "@", "(@)", "+@" must return the placeholder bit for bit')
+    res = run_pairs('C14', pairs, stats)
+    cases, outs, model = run_streams(cs, stats)
+    merge(res, std_judge('C14', cases, outs, model))
+    for prof, impl in outs.items():
+        for c, x in zip(cases, impl):
+            want = 'OK ' + (c[2] if not (c[0] == 'f64' and c[2].lower().startswith('7ff8')) else '7ff8000000000000')
+            got = vlib.strip_ticks(x)
+            if c[0] in ('f64', 'i64', 'number', 'decimal') and got != want and not (c[0] == 'decimal' and c[2].startswith('-0/')):
+                res['violations'].insert(0, {'kind': 'placeholder-changed', 'cases': [list(c)], 'observed': got, 'expected': want,
+                                             'why': '@ did not evaluate to the placeholder itself'})
+    return res
+
+def run_C20(tier, rng, stats):
+    n = 500 if tier == 'quick' else 5000
+    triples = []
+    first = []
+    for ev in EVS:
+        gc = ExprGen(rng, ev, lits=gen.SMALL_LITS[ev] + ['@', '@'], allow_ans=True)
+        ge = ExprGen(rng, ev, lits=lit_pool_small(ev))
+        pool = gen.ph_pool(ev)
+        for i in range(n):
+            C = gc.expr(1 + rng.below(3))
+            if '@' not in C:
+                C = rng.choice(['@+%s', '%s*@', 'abs(@)-%s', '2^@+%s', '-@^%s', '%s-@']) % C
+            E = ge.expr(1 + rng.below(3))
+            p = rng.choice(pool)
+            first.append(case(ev, 'eval', p, E))
+            triples.append((ev, C, E, p))
+    cases, outs, model = run_streams(first, stats)
+    res = std_judge('C20', cases, outs, model)
+    idx = {c: i for i, c in enumerate(cases)}
+    pairs = []
+    for ev, C, E, p in triples:
+        o = vlib.strip_ticks(outs['debug'][idx[case(ev, 'eval', p, E)]])
+        if not o.startswith('OK '):
+            continue
+        v = o[3:]
+        pairs.append((case(ev, 'eval', p, C.replace('@', '(' + E + ')')), case(ev, 'eval', v, C), 'C[(E)] with p vs C[@] with v'))
+    stats['rule'] = ('random (context, subexpression) pairs of well-formed expressions per evaluator, evaluated three times through the public API: E alone, C[(E)], '
+                     'C[@] with the placeholder set to the value of E; contexts put the hole in operand, argument, exponent, prefix-sign and aggregate positions')
+    merge(res, run_pairs('C20', pairs, stats))
+    return res
+
+def lit_pool_small(ev):
+    return gen.SMALL_LITS[ev] + (['@'] if ev != 'complex' else [])
+
+for _p in ['C12', 'C13', 'C14', 'C20']:
+    PROPS[_p] = {}
